@@ -190,6 +190,20 @@ macro_rules! exec_prod_impl {
             v.push(a.into_affine().into_projective());
             v
         }
+        // batch normalization of a slice mixing normalized, un-normalized and identity entries
+        "batch" => {
+            let (a, b) = (p(), q());
+            let mut d = a;
+            d.double();
+            let mut t = d;
+            t.add_assign(&b);
+            let an = a.into_affine().into_projective();
+            let pat = op["pattern"].as_u64().unwrap();
+            let pool = [d, an, t, <$G>::zero(), b.into_affine().into_projective(), a];
+            let mut v: Vec<$G> = (0..5).map(|i| pool[((pat >> (3 * i)) & 7) as usize % 6]).collect();
+            <$G>::batch_normalization(&mut v);
+            v
+        }
         "mul" => {
             let k = scalar_repr(&op["k"]);
             let a = p();
